@@ -1280,3 +1280,45 @@ def rule_free_hint_only_lowered(ctx):
             ctx.violated("LOWWATER", key, f.where(line), "bv_set assigns `%s = %s` without testing that this lowers the hint: free bits below the new value are never found again" % (fld, v))
     ctx.floor("LOWWATER", 1, n, "(stores into the free-bit hint outside the search routine)")
     return n
+
+
+def rule_special_branch_inquires_same_dd(ctx):
+    """SPECIALID (C02): "is this element special?" is asked of one descriptor (`HTPis_special(X)`); the branch that handles the
+    special case then needs that element's offset to read the special header.  The descriptor it inquires inside the branch is
+    the X the branch was chosen for: inquiring a neighbouring id (the outer element of a compressed-and-linked pair) reads
+    the wrong header, takes its special code for something else, and reports no data blocks for data that is there."""
+    from .codec import ast_walk
+    prog = ctx.prog
+    n = 0
+    for f in prog.lib_funcs():
+        ast = f.raw.get("ast")
+        if not ast:
+            continue
+        found = []
+
+        def vis(nd, st):
+            if nd[0] in ("s", "if") and nd[1] is not None:
+                for c in calls_in(nd[1], True):
+                    if c[1] == "HTPinquire" and c[3]:
+                        near = None
+                        for a in reversed(st):
+                            if a[0] == "if" and a[1] is not None:
+                                t = [render(strip(k[3][0])) for k in calls_in(a[1], True) if k[1] == "HTPis_special" and k[3]]
+                                if t:
+                                    near = t[0]
+                                    break
+                        if near:
+                            found.append((nd, render(strip(c[3][0])), near))
+            return True
+
+        ast_walk(ast, vis)
+        for k, (nd, y, near) in enumerate(found, 1):
+            n += 1
+            key = "SPECIALID:%s#%d" % (f.name, k)
+            line = nd[-3] if isinstance(nd[-3], int) else f.line
+            if y == near:
+                ctx.holds("SPECIALID", key, f.where(line), "inside the branch chosen by HTPis_special(%s) the descriptor inquired is %s" % (near[:30], y[:30]), nontrivial=True)
+            else:
+                ctx.violated("SPECIALID", key, f.where(line), "the branch was chosen by HTPis_special(%s) but inquires `%s`: the special header that is read belongs to a different element" % (near[:40], y[:40]))
+    ctx.floor("SPECIALID", 3, n, "(descriptor inquiries inside a special-element branch)")
+    return n
